@@ -11,6 +11,8 @@ LEVEL_TEXT = ("seeded search over schedules, fault sequences and generated workl
 GW = 'Trusts: the gw world (DESIGN §4): shipped handler chain, controller, informer, probing, transports and dispatcher run unmodified over in-bubble pipes (hooks H1, H2, H4); clients, upstreams and the object store are stubs; plain HTTP/1.1 only; between two driver steps goroutines run under a single-P Go runtime (the seed decides every stimulus, not statement interleavings); net/http select coins under connection-teardown faults are not owned by the tape (replays are retried, see DESIGN §2.7). '
 
 CHECKS = {
+ "C13": dict(design="§C13", technique="deterministic simulation with fault injection: real limiter replicas with real lease election under API cuts, crashes, restarts and partitions; RPCs sent to leaders and non-leaders; leader guard judged against each replica's own elector view at the boundaries around every call",
+   note="Trusts: the rl world (DESIGN §4). No unique-leader assumption (lease semantics). The shard function's range/determinism over all inputs is only sampled: that part is a pure function."),
  "C07": dict(design="§C07", technique="deterministic simulation: real limiter replicas (lease election, informer-driven limit changes, real handler chain) driven by seeded sequences of honest instance reports; recorded quotas read back through the server's API after every answer",
    note="Trusts: the rl world (DESIGN §4): replicas and gateway client sets run shipped code over simnet/simapi; instances' reporting logic is synthetic but honest as defined in the rule. Sequential reports in this profile; overlapping reports are explored by the c07-overlap profile when present."),
  "C09": dict(design="§C09", technique="deterministic simulation with fault injection: the real gateway limiter stack against a byzantine scripted limiter server over a simulated network (readiness flaps, leader unknown, partitions, arbitrary int32 answers), admissions attributed to limiter objects; bounded-liveness clause after faults stop",
